@@ -181,11 +181,14 @@ func (n *groupNode) Next() (bool, error) {
 						n.execInfo.hiddenBeforeOffset++
 					}
 
-					// We must hide all child documents after the offset plus limit
-					for i := childSelect.Limit.Limit + childSelect.Limit.Offset; i < l; i++ {
-						childDocs[i].Hidden = true
+					// We must hide all child documents after the offset plus limit.
+					// A limit of zero means no limit (offset only).
+					if childSelect.Limit.Limit > 0 {
+						for i := childSelect.Limit.Limit + childSelect.Limit.Offset; i < l; i++ {
+							childDocs[i].Hidden = true
 
-						n.execInfo.hiddenAfterLimit++
+							n.execInfo.hiddenAfterLimit++
+						}
 					}
 				}
 			}
